@@ -15,7 +15,7 @@ import xml.etree.ElementTree as ET
 import vlib, gama, netgen
 from checks import enet
 
-HOSTILE_IDS = ["A&B", "x<y", "p>q", "it's", 'say"q"', "é1", "a;b", "&amp;", "<!--", "]]>", "P 1".replace(" ", "_"), "1e5", "-7"]
+HOSTILE_IDS = ["A&B", "x<y", "p>q", "it's", 'say"q"', "é1", "a;b", "&amp;", "<!--", "]]>", "P 1", "1e5", "-7"]
 NS = gama.NS
 
 
@@ -45,7 +45,7 @@ def parse_readback(out):
         elif w[0] == "OBS":
             d["obs"].append({"tag": unhex(w[1]), "from": unhex(w[2]), "to": unhex(w[3]), "left": unhex(w[4]), "right": unhex(w[5]),
                              "obs": fl(w[6]), "adj": fl(w[7]), "stdev": fl(w[8]), "qrr": fl(w[9]), "f": fl(w[10]), "std-residual": fl(w[11]),
-                             "err-obs": unhex(w[12]), "err-adj": unhex(w[13])})
+                             "err-obs": unhex(w[12]), "err-adj": unhex(w[13]), "residual": fl(w[14]) if len(w) > 14 else None})
         elif w[0] == "GEN":
             d["description"] = unhex(w[1])
         elif w[0] == "SUM":
@@ -150,6 +150,16 @@ def compare_readback(rb, fv):
                         dd.append("observation %d <%s>: %s read back %r, file %r" % (k + 1, a["tag"], key, got, b[key]))
                 elif a[key] != 0:
                     dd.append("observation %d <%s>: %s is absent in the file but read back as %r" % (k + 1, a["tag"], key, a[key]))
+            # the reader's residual(): adjusted - observed in mm / cc, an angular difference taken on the circle
+            if a.get("residual") is not None and "obs" in b and "adj" in b:
+                try:
+                    r_ = gama.angle_or_float(b["adj"]) - gama.angle_or_float(b["obs"])
+                    if a["tag"] in ("direction", "angle", "zenith-angle", "azimuth"):
+                        r_ = ((r_ + 200) % 400 - 200) * 1e4
+                        if not re.match(r"^-?\d+-\d+-", b["obs"]) and abs(a["residual"] - r_) > 1e-3 + 1e-9 * abs(r_):
+                            dd.append("observation %d <%s>: the reader's residual is %.3f, adjusted - observed = %.3f cc" % (k + 1, a["tag"], a["residual"], r_))
+                except ValueError:
+                    pass
             for key in ("err-obs", "err-adj"):
                 if a[key] != b.get(key, ""):
                     dd.append("observation %d <%s>: <%s> read back %r, the file has %r" % (k + 1, a["tag"], key, a[key], b.get(key, "(absent)")))
@@ -214,8 +224,9 @@ def text_coordinates(path):
             res.setdefault(cur, {})[m.group(2).lower()] = float(m.group(5))
             continue
         w = line.split()
-        if len(w) == 1 and not set(w[0]) <= set("=-*"):
-            cur = w[0]
+        # a point id on a line of its own (ids may contain single blanks: 'P 1'); rulers and headings are not ids
+        if w and len(w) <= 3 and not all(set(t) <= set("=-*") for t in w) and line.startswith(" "):
+            cur = " ".join(w)
     return res
 
 
@@ -236,6 +247,15 @@ def gen_network(rng):
             netgen.add_coordinates_cluster(rng, net, truth, rng.sample(pids, 2), dim=dim if dim != 1 else 2, cov_band=rng.choice([None, 1, 2]))
         if rng.random() < 0.6:
             netgen.add_vectors_cluster(rng, net, truth, [tuple(rng.sample(pids, 2)) for _ in range(rng.randint(1, 2))], cov_band=rng.choice([None, 1, 3]))
+        # turn one direction set so that a reading sits just below 400 gon: its adjusted value may land on the other side of 0
+        sets = [c for c in net["clusters"] if c["kind"] == "obs" and not c.get("cov") and sum(1 for o in c["obs"] if o["t"] == "direction") >= 2]
+        if sets and rng.random() < 0.6:
+            c = rng.choice(sets)
+            dirs = [o for o in c["obs"] if o["t"] == "direction" and "valstr" not in o]
+            if dirs:
+                shift = dirs[0]["val"] - (400.0 - rng.choice([0.0002, 0.0005, 0.00005]))
+                for o in dirs:
+                    o["val"] = (o["val"] - shift) % 400.0
         kind = "directions+clusters"
     else:
         # no angular observation: any declaration of axes / orientation is legitimate, including the inconsistent ones
